@@ -1464,6 +1464,9 @@ impl Vm {
     #[cfg(debug_assertions)]
     let roots_before = self.gc().temp_roots();
 
+    // a native that fails may return early before it has popped its temporary roots
+    let error_roots = self.gc.borrow().temp_roots();
+
     match native.environment() {
       NativeEnvironment::StackLess => match native.call(&mut Hooks::new(self), args) {
         Call::Ok(value) => {
@@ -1477,7 +1480,10 @@ impl Vm {
           }
           ExecutionSignal::OkReturn
         },
-        Call::Err(LyError::Err(error)) => self.set_error(error),
+        Call::Err(LyError::Err(error)) => {
+          self.discard_roots(error_roots);
+          self.set_error(error)
+        },
         Call::Err(LyError::Exit(code)) => self.set_exit(code),
       },
       NativeEnvironment::Normal => {
@@ -1514,12 +1520,23 @@ impl Vm {
             }
             ExecutionSignal::OkReturn
           },
-          Call::Err(LyError::Err(error)) => self.set_error(error),
+          Call::Err(LyError::Err(error)) => {
+            self.discard_roots(error_roots);
+            self.set_error(error)
+          },
           Call::Err(LyError::Exit(code)) => self.set_exit(code),
         }
       },
     }
   }}
+
+  /// Pop any temporary roots above the provided count
+  fn discard_roots(&mut self, count: usize) {
+    let current = self.gc.borrow().temp_roots();
+    if current > count {
+      self.pop_roots(current - count);
+    }
+  }
 
   /// call a laythe function setting it as the new call frame
   unsafe fn call_closure(&mut self, closure: ObjRef<Closure>, arg_count: u8) -> ExecutionSignal { unsafe {
